@@ -526,7 +526,53 @@ def side_checks(prop, tier, seed, kf_entries):
     out.append({"kind": "spec-validation", "name": "RFC 3629 encoder transcription vs str.encode('utf-8')", "cases": len(cps), "disagree": ubad})
     if ubad:
         out.append({"kind": "side-check-failure", "name": "utf8-spec-validation", "text": "%d code points disagree" % ubad})
+    out.extend(_bounded_parse_format())
     return out
+
+
+def _bounded_parse_format():
+    """BOUNDED stand-in (labelled bounded, not counted as proved) for PyrexTypes.CIntLike._parse_format, the function that decides
+    which format specs of an f-string field on a C integer go to the C helpers proved above, and with which (type, width, padding):
+    it works on text with lstrip / isdecimal / int(), which the Python front end does not model.  Exhaustive over every spec of
+    length <= 4 over a 24-character alphabet: whenever the spec is accepted, CPython's format(v, spec) must exist and equal
+    format(v, '<0 if padding is 0><width><type>') - the text the helper is proved to produce - for a set of values of both signs."""
+    import itertools
+    from dv.pyunit import load_source_module
+    mod = load_source_module("Cython/Compiler/PyrexTypes.py", "dvsubject_PyrexTypes")
+    parse = mod.CIntLike._parse_format
+    alphabet = "0159>-<^=+ #_,.cdoxXbne%"
+    values = (-255, -5, -1, 0, 5, 65, 255, 4660)
+    n = bad = 0
+    first = None
+    for ln in range(0, 5):
+        for tup in itertools.product(alphabet, repeat=ln):
+            spec = "".join(tup)
+            n += 1
+            try:
+                ftype, width, padding = parse(spec)
+            except Exception as ex:
+                bad += 1
+                first = first or (spec, "raised %r" % ex)
+                continue
+            if ftype is None:
+                continue                      # refused: the generic format() call is made at run time (always right)
+            meaning = ("0" if padding == "0" else "") + (str(width) if width else "") + ftype
+            for v in values:
+                if ftype == "c" and v < 0:
+                    continue
+                try:
+                    want = format(v, spec)
+                except ValueError:
+                    want = "<ValueError>"
+                if format(v, meaning) != want:
+                    bad += 1
+                    first = first or (spec, (ftype, width, padding), v, format(v, meaning), want)
+                    break
+    res = [{"kind": "bounded-check", "name": "CIntLike._parse_format: every spec of length <= 4 over %d characters; accepted specs must mean what the C helper computes" % len(alphabet),
+            "level": "bounded (not proved)", "cases": n, "disagree": bad, "first": first}]
+    if bad:
+        res.append({"kind": "bounded-violation", "name": "parse_format", "text": "spec %r is accepted as %r: %r" % (first[0], first[1], first[2:])})
+    return res
 
 
 REGIONS = {}
